@@ -13,7 +13,7 @@ LEAF_PIDS = ("C08", "C09", "C10", "C12", "C13", "C18", "C20")
 GEN = os.path.join(common.COQ, "Generated", "LeafCode.v")
 # C13 and C20 are about the translated functions themselves; the machine-level properties only rest on the constants (contain(), UNIT_COUNT)
 DEPENDENTS = {"C13": ["Proofs/LeafCodeBits.v", "Proofs/LeafCodeStream.v", "Proofs/LeafCodeWide.v", "Proofs/LeafCodeFields.v", "Proofs/LeafCodeBuffer.v"],
-              "C20": ["Proofs/LeafConsts.v", "Proofs/LeafCodeProofs.v", "Proofs/LeafCodeArrays.v"],
+              "C20": ["Proofs/LeafConsts.v", "Proofs/LeafCodeProofs.v", "Proofs/LeafCodeArrays.v", "Proofs/LeafCodeStatic.v"],
               "C10": ["Proofs/LeafCodeTaskList.v"],
               # "never an index outside an array, never an undefined shift or signed overflow" is what every src_ theorem establishes on the way: the byte-level
               # stream code and the slot allocator are the places where the library computes indices into storage
